@@ -5,7 +5,7 @@ From Coq Require Import List NArith ZArith Bool.
 From Qryn Require Import model.IngestRobust model.IngestPipe proofs.IngestPipeProofs.   (* C05's count-level parser pipeline; first: C02's names win *)
 From Qryn Require Import model.Ingest model.PushHandler model.IngestSpec model.IngestFresh proofs.IngestBase proofs.IngestAck
   proofs.IngestSpecProofs proofs.IngestPromises model.IngestSched model.PushConfirm proofs.IngestShapes
-  model.IngestBridge proofs.IngestBridgeProofs.
+  model.IngestBridge proofs.IngestBridgeProofs proofs.IngestBridgeRows proofs.IngestFreshFrom.
 From Qryn Require model.Spans model.IngestWidths proofs.IngestWidthsProofs.
 Import ListNotations.
 
@@ -205,6 +205,50 @@ Theorem span_batches_hold_distinct_whole_rows : forall h sf af cs ca, handler_ok
   forall evs first, Forall (cb_inv sf af) (sent_cbatches h sf af (cbatch0 sf af first) evs).
 Proof. intros h sf af cs ca H evs first. apply (sent_cbatches_inv h sf af cs ca H). apply cbatch0_inv. Qed.
 Print Assumptions span_batches_hold_distinct_whole_rows.
+
+(* ... over the WHOLE push: the rows of all sub-requests of all chunks of one span push (push_rids: chunk by chunk, tag rows then
+   span rows) are pairwise different and not below the push's first identity -- the batches of a push occupy consecutive,
+   disjoint ranges of a counter no flush resets.  This is what fresh_run asks of one push (each submission holds an id once,
+   no id in two sub-requests of the push). *)
+Theorem span_push_rows_are_distinct : forall h sf af, handler_ok h sf af (kind_fields KSpans) (kind_fields KTags) = true ->
+  forall w first evs,
+    NoDup (push_rids (span_items h sf af w (cbatch0 sf af first) evs)) /\
+    forall x, In x (push_rids (span_items h sf af w (cbatch0 sf af first) evs)) -> (first <= x)%N.
+Proof. intros h sf af H w first evs. apply (span_push_rows_distinct h sf af H); [apply cbatch0_inv|apply cb_rng0]. Qed.
+Print Assumptions span_push_rows_are_distinct.
+
+Theorem logs_push_rows_are_distinct : forall p sf tf, entries_ok p sf tf (kind_fields KSamples) (kind_fields KSeries) = true ->
+  fields_cover sf KMetrics = true ->
+  forall w first evs, samples_kind_ok (w_samples_kind w) = true -> events_consistent evs = true ->
+    NoDup (push_rids (logs_items p sf tf w (clbatch0 sf tf first) evs)) /\
+    forall x, In x (push_rids (logs_items p sf tf w (clbatch0 sf tf first) evs)) -> (first <= x)%N.
+Proof.
+  intros p sf tf H Hm w first evs Hk Hc. apply (logs_push_rows_distinct p sf tf H Hm w evs Hk Hc); [apply clbatch0_inv|apply cl_rng0].
+Qed.
+Print Assumptions logs_push_rows_are_distinct.
+
+(* Where the freshness hypothesis of blocks_have_distinct_rows comes from: if the rows the pushes of a trace submit are named
+   pairwise differently (trace_rids: the row ids of all sub-requests of all pushes, in order of arrival; no direct Request
+   calls) the trace is fresh for the owner function read off it (own_of: the push and position that holds the row) ... *)
+Theorem distinctly_named_rows_make_a_fresh_run : forall cfg n tr, forallb no_env tr = true -> NoDup (trace_rids tr) ->
+  fresh_run (own_of tr) (ginit cfg n) tr = true.
+Proof. exact fresh_from_distinct. Qed.
+Print Assumptions distinctly_named_rows_make_a_fresh_run.
+
+(* ... so for pushes made by the parsers -- whose rows are pairwise different WITHIN a push by construction
+   (span_push_rows_are_distinct / logs_push_rows_are_distinct: what a push contributes to trace_rids is the beginning of its
+   push_rids, IngestBridgeRows.items_owners_prefix) -- "no row twice in a block" holds END TO END as soon as different pushes
+   draw their identities apart: every block handed to ClickHouse is the table of its rows and no row id occurs twice in it.
+   Example parsed_demo_is_fresh: the two pushes of parsed_demo draw from 100 and from 200. *)
+Theorem parsed_pushes_give_blocks_of_distinct_rows : forall cfg n tr g es,
+  Forall (act_parsed on_span_cols_model spans_fields_model attrs_fields_model on_entries_cols_model spl_fields_model tsd_fields_model) tr ->
+  forallb no_env tr = true -> NoDup (trace_rids tr) -> grun (ginit cfg n) tr = Some (g, es) ->
+  forall s k b, In (ESend s k b) es -> good_block_b k b = true.
+Proof.
+  intros cfg n tr g es H Ne Nd R.
+  exact (distinct_names_give_distinct_rows cfg n tr g es (act_parsed_wf _ _ _ _ _ _ bridge_model_ok tr H) Ne Nd R).
+Qed.
+Print Assumptions parsed_pushes_give_blocks_of_distinct_rows.
 
 (* The contract of onEntries cannot be dropped (one message more than timestamps: the samples request is not a table), and
    a profile request of two rows would not be a table either (the five array columns get ONE element per request): the
